@@ -165,6 +165,78 @@ def tracker_transition(c):
         c.ensure("repositioning_unless_tab_offset", c.iff(t._repositioning_required is True, c.neg(is_tab)))
 
 
+def tracker_accessors(c):
+    """the rest of the tracker's interface, for every state: the two questions answer the two flags and change nothing; each
+    acknowledgement clears its own flag and nothing else (a repositioning acknowledged must not swallow a pending line
+    break, nor the other way round); the current position is the FIRST of the stored positions (the row a caption
+    started on, not the row a pending break leads to); without any position the plain tracker refuses with the syntax
+    error and the default-providing one answers its default - the last position given anywhere, (14, 0) at first."""
+    from pycaption.exceptions import CaptionReadSyntaxError
+    from pycaption.scc.state_machines import DefaultProvidingPositionTracker as DT
+    cls = c.pick("tracker", [_PositioningTracker, DT])
+    row, col, row2 = c.int("row", 1, 15), c.int("col", 0, 31), c.int("row2", 1, 15)
+    brk, rep = c.pick("break_pending", [False, True]), c.pick("repositioning_pending", [False, True])
+    shape = c.pick("positions", ["none", "one", "two"])
+    positions = {"none": [None], "one": [(row, col)], "two": [(row, col), (row2, col)]}[shape]
+    drow, dcol = c.int("default_row", 1, 15), c.int("default_col", 0, 31)
+    extra = {"default": (drow, dcol)} if cls is DT else {}
+    t = c.new(cls, _positions=list(positions), _break_required=brk, _repositioning_required=rep, _last_column=None, **extra)
+    op = c.pick("operation", ["is_repositioning_required", "is_linebreak_required", "acknowledge_position_changed",
+                              "acknowledge_linebreak_consumed", "get_current_position"])
+
+    def unchanged(*fields):
+        want = {"_positions": positions, "_break_required": brk, "_repositioning_required": rep}
+        return all(len(t._positions) == len(positions) and all(a is b or c.truth(c.conj(a[0] == b[0], a[1] == b[1])) for a, b in zip(t._positions, positions))
+                   if f == "_positions" else getattr(t, f) is want[f] for f in fields)
+    if op == "get_current_position" and shape == "none" and cls is _PositioningTracker:
+        from pyvc.verify import Raised
+        raised = c.call(cls.get_current_position, t, raises=(CaptionReadSyntaxError,))
+        c.ensure("no_position_is_the_syntax_error", isinstance(raised, Raised))
+        return
+    r = c.call(getattr(cls, op), t)
+    if op == "is_repositioning_required":
+        c.ensure("answers_the_repositioning_flag", r is rep)
+        c.ensure("a_question_changes_nothing", unchanged("_positions", "_break_required", "_repositioning_required"))
+    elif op == "is_linebreak_required":
+        c.ensure("answers_the_line_break_flag", r is brk)
+        c.ensure("a_question_changes_nothing", unchanged("_positions", "_break_required", "_repositioning_required"))
+    elif op == "acknowledge_position_changed":
+        c.ensure("clears_the_repositioning_flag", t._repositioning_required is False)
+        c.ensure("and_nothing_else", unchanged("_positions", "_break_required"))
+    elif op == "acknowledge_linebreak_consumed":
+        c.ensure("clears_the_line_break_flag", t._break_required is False)
+        c.ensure("and_nothing_else", unchanged("_positions", "_repositioning_required"))
+    else:
+        if shape == "none":
+            c.ensure("default_when_no_position_was_given", c.truth(c.conj(r[0] == drow, r[1] == dcol)))
+        else:
+            c.ensure("the_first_stored_position", c.truth(c.conj(r[0] == row, r[1] == col)))
+        c.ensure("a_question_changes_nothing", unchanged("_positions", "_break_required", "_repositioning_required"))
+
+
+def default_tracker_update(c):
+    """DefaultProvidingPositionTracker.update_positioning: a position given becomes the default, None leaves it; the
+    transition itself is the plain tracker's (used by contract: called once with the same argument)"""
+    from pycaption.scc.state_machines import DefaultProvidingPositionTracker as DT
+    from pyvc.verify import args_by_name
+    given = c.pick("a_position_is_given", [True, False])
+    nrow, ncol = c.int("new_row", 1, 15), c.int("new_col", 0, 31)
+    drow, dcol = c.int("default_row", 1, 15), c.int("default_col", 0, 31)
+    has = c.pick("a_position_was_given_before", [False, True])
+    t = c.new(DT, _positions=[(c.int("row", 1, 15), c.int("col", 0, 31))] if has else [None], _break_required=False,
+              _repositioning_required=False, _last_column=None, default=(drow, dcol))
+    arg = (nrow, ncol) if given else None
+    log = []
+    c.interp.contracts["pycaption.scc.state_machines:_PositioningTracker.update_positioning"] = \
+        lambda interp, fn, a, kw: log.append((args_by_name(fn, a, kw)["self"], args_by_name(fn, a, kw)["positioning"]))
+    c.call(DT.update_positioning, t, arg, compare=False)
+    c.ensure("transition_is_the_plain_trackers_once_with_the_same_argument", len(log) == 1 and log[0][0] is t and log[0][1] is arg)
+    if given:
+        c.ensure("a_given_position_becomes_the_default", c.truth(c.conj(t.default[0] == nrow, t.default[1] == ncol)))
+    else:
+        c.ensure("none_leaves_the_default", c.truth(c.conj(t.default[0] == drow, t.default[1] == dcol)))
+
+
 # ------------------------------------------------------------------------------------ bounded part
 
 ROWCOLS = [(r, col) for r in (1, 2, 8, 14, 15) for col in (0, 4, 28)]
@@ -454,6 +526,11 @@ def run(ctx):
     ctx.ground("backspace", backspace)
     P("scc._get_layout_from_tuple", layout_from_tuple, functions=[_get_layout_from_tuple])
     P("scc._PositioningTracker.update_positioning", tracker_transition, functions=[_PositioningTracker.update_positioning])
+    from pycaption.scc.state_machines import DefaultProvidingPositionTracker as _DT
+    P("scc._PositioningTracker[accessors]", tracker_accessors,
+      functions=[_PositioningTracker.is_repositioning_required, _PositioningTracker.is_linebreak_required, _PositioningTracker.acknowledge_position_changed,
+                 _PositioningTracker.acknowledge_linebreak_consumed, _PositioningTracker.get_current_position, _DT.get_current_position])
+    P("scc.DefaultProvidingPositionTracker.update_positioning", default_tracker_update, functions=[_DT.update_positioning], crosscheck=False)
     import props.C11_italics as IT
     IT.prove_passes(ctx)
     import props.C05_captions as CP
